@@ -19,6 +19,7 @@ RULE += ' A quarter of the files contain untraded days whose bar repeats an earl
 RULE += " Column order after Date is shuffled in 30% of the datasets; 15% write dates as M/D/YYYY; 15% have whole-number closes with fractional opens; 20% use lower-case file names (tip, tips, gs); every handler query is repeated through a user-style source whose ask differs from its bid (handler ask = that source's ask)."
 RULE += ' 30% of the datasets are read through a copy.copy/deepcopy of the source handed to the handler in a tuple.'
 RULE += ' Adjustment ratios include 0.999992 and 1.000004; 5% of the datasets quote whole numbers of a few billion in every price column; 12% start between 1958 and 1969.'
+RULE += ' 30% of the handlers first served another feed and were then re-pointed (handler.data_sources = [...]); a source built on a directory BEFORE its files were rewritten must keep answering from what it read.'
 ASSUMPTIONS = [
     'unique dates per file; Close and Adj Close are missing together (otherwise "scaled by adjusted-close/close" has no single reading)',
     'values compared at 1e-12 relative (one division and one multiplication in the adjustment)',
